@@ -137,6 +137,19 @@ theorem filter_flatMap_groups [DecidableEq κ] (key : β → κ) (ks : List κ) 
         exact h (h1 ▸ h2)
       simp [hnil, h, List.mem_cons]
 
+/-! ### a loop of filters is one filter -/
+
+/-- `for x in xs: acc = acc.filter (f x)` keeps the rows that pass every `f x` -/
+theorem foldl_filter_eq {γ : Type} (f : γ → β → Bool) (xs : List γ) (l : List β) :
+    xs.foldl (fun acc x => acc.filter (f x)) l = l.filter (fun p => xs.all (fun x => f x p)) := by
+  induction xs generalizing l with
+  | nil => simp only [List.foldl_nil, List.all_nil]; exact (List.filter_eq_self.2 (fun _ _ => rfl)).symm
+  | cons x xs ih =>
+    simp only [List.foldl_cons, ih, List.filter_filter, List.all_cons]
+    apply List.filter_congr
+    intro p _
+    exact Bool.and_comm _ _
+
 /-! ### identifiers without repetition identify the row -/
 
 theorem eq_of_nodup_map {f : β → κ} {l : List β} (h : (l.map f).Nodup) {a b : β} (ha : a ∈ l) (hb : b ∈ l)
